@@ -31,7 +31,8 @@ ASSUMPTIONS = ["input disks are oriented manifold triangulations (single border 
                "square target: the orientation oracle is applied only when no interior edge joins two border vertices that the code "
                "places on the same closed side of the square (Floater 2003, Thm 4.1: a convex-combination map that sends the border "
                "homeomorphically to the boundary of a convex region is one-to-one iff no dividing edge is mapped into that boundary); "
-               "this is stricter than, and implied by failure of, 'no triangle has all its vertices on one side'",
+               "a triangle with all vertices on one side always has such an edge, so every case excluded by the statement is excluded "
+               "here too; in the excluded cases only 'no triangle strictly flipped' is asserted (limit of strictly convex targets)",
                "custom target: the N x 2 array is indexed like mesh.boundary_vertices (as run() pairs them); the harness supplies a "
                "strictly convex polygon in border-loop order",
                "rejection: only chi != 1 must raise (chi = 1 non-disks such as disk + torus are not asserted); the exception must come "
